@@ -111,11 +111,12 @@ reg('C03', ['u_mini', 'u_elim'],
      'lookaheads, terminal_ids and patterns are carried over unchanged (proved as frame conditions); lookahead automata are minimized by their own minimize call'],
     technique='Verus function contracts + loop invariants on every Minimizer function; quotient-language theorem as a spec-level lemma')
 
-reg('C13', ['u_cache'],
+reg('C13', ['u_cache', 'u_build'],
     'ScannerCache::get relative to an abstract compile(modes): a hit and a miss both return exactly compile(modes); a failing build returns the error and leaves the cache unchanged (insertion only after success); entries are never overwritten; the key types still derive PartialEq/Eq/Hash field-wise (checked mechanically: derives present, no hand-written impl)',
     ['compile is a deterministic function of the mode list (the build layer is not under contract)',
      'TRUSTED replacements: `modes.try_into()` -> verif_compile, the unsafe `(*Arc::as_ptr(scanner)).clone()` -> verif_clone_arc_target (returns a copy of the pointee)',
      'derived Hash/Eq/Clone of ScannerMode, Pattern, Lookahead are field-wise and obey vstd key model; Vec<T>: Borrow<[T]> lookups compare element-wise (axiom_slice_key)',
+     'the two compile paths (build() goes through ScannerCache::get -> TryFrom<&[ScannerMode]>, build_uncached() through TryFrom<Vec<ScannerMode>>) are both under contract in unit U-build with the SAME postcondition scanner_built(modes, s): mode k is the compiled form of mode k of the configuration (token types, lookaheads and transitions included), which determines scanning behaviour (theorem_built_scanner_acc / theorem_built_scanner_cand)',
      'ScannerBuilder::build / SimpleScannerBuilder::build (lock + get) are not under contract'],
     technique='Verus function contract + data-structure invariant on the cache map; derive-presence check')
 
@@ -126,12 +127,14 @@ reg('C08', ['u_class', 'u_reg'],
      'the [:class:] arm, TryFrom<&ClassUnicode> and TryFrom<&ClassPerl> are trusted leaves', 'regex_syntax::ast types are what the crate (0.8.x in the offline registry) declares'],
     technique='Verus function contracts by structural recursion over the imported AST; closure contracts generated from closure bodies')
 
-reg('C15', ['u_ast'],
+reg('C15', ['u_ast', 'u_class', 'u_reg'],
     'Nfa::try_from_ast returns Err for every AST that contains, at any depth, a construct documented as unsupported: flags (?i), assertions (anchors, word boundaries), non-greedy repetition, flagged non-capturing groups - by structural recursion over the imported regex_syntax AST (Concat/Alternation loops with invariants, {m,n} expansion loops terminate)',
-    ['NOT decided: "never panics" and "supported patterns always build" for the whole pipeline (needs the internal invariants of C02/C03); look-around syntax and syntax errors are rejected by regex_syntax::Parser (trusted); unknown or valued Unicode classes are rejected in TryFrom<&ClassUnicode> for MatchFn (a trusted leaf of U-class)',
+    ['NOT decided: "never panics" and "supported patterns always build" for the whole pipeline (needs the internal invariants of C02/C03); look-around syntax and syntax errors are rejected by regex_syntax::Parser (trusted); unknown or valued Unicode classes are rejected in TryFrom<&ClassUnicode> for MatchFn (a trusted leaf of U-class); that EVERY registered leaf passes through that validation is proved in units U-class / U-reg (MatchFunction::try_from(&Ast) rejects every node that is not a class leaf; create_match_char_class converts every registry entry or fails; ComparableAst::eq identifies class nodes only when they print identically)',
+     'bounded stand-in on every run (family unsupported; labelled, not proof) for the code cut out of the units: error-message construction (U3/U4), the parser, TryFrom<&ClassUnicode>',
      'the NFA combinators called by try_from_ast are opaque stubs (signatures extracted); error-message construction and AST Display are trusted replacements',
      'MultiPatternNfa::try_from_patterns / parse_regex_syntax (the path from a pattern string to try_from_ast) are not under contract'],
-    technique='Verus function contract by structural recursion over the imported AST')
+    technique='Verus function contract by structural recursion over the imported AST + bounded stand-in for the error paths cut out of the units',
+    standin_always=['unsupported'])
 
 reg('C02', ['u_nfa', 'u_sub', 'u_mp', 'u_elim', 'u_glue', 'u_lang', 'u_mini', 'u_build', 'u_reg'],
     'the build pipeline from the pattern text to the minimized automaton, as structural refinement of four specified constructions (Thompson, union, epsilon elimination, quotient). (1) Thompson layer (U-nfa): every NFA combinator and Nfa::try_from_ast produce EXACTLY thompson(ast, registry) (state vector, epsilon and class edges, start/end, {m,n} expansion, leaves registered left to right). '
@@ -154,4 +157,4 @@ reg('C02', ['u_nfa', 'u_sub', 'u_mp', 'u_elim', 'u_glue', 'u_lang', 'u_mini', 'u
      'preconditions: automata fit the 32-bit state ids and have fewer than u32::MAX states (th_fits / mp_fits / la_fit1 and mp_off(all) < u32::MAX: precondition d_wf of the minimizer); Nfa::get_match_transitions indexes the state vector by id, so it is only correct for unshifted automata (n_off == 0), which is how From<Nfa> uses it'],
     level_text='proof that the code implements the four specified constructions exactly (Thompson, union, epsilon elimination, quotient by a stable partition) and chains them from the pattern text to the minimized automaton, lookaheads included; the language theorems of all four are proved at spec level and composed end to end; the parser, the class-predicate layer and the mode/registry layer above are covered only by a bounded stand-in that is run on every check and labelled as such',
     technique='Verus function contracts and loop invariants against spec-level constructions (structural refinement), one abstract epsilon-NFA instantiated for Nfa and MultiPatternNfa + bounded stand-in for the functions out of reach',
-    standin_always=['stream', 'lookahead', 'finite'])
+    standin_always=['stream', 'lookahead', 'finite', 'regex'])
